@@ -229,6 +229,13 @@ func scnC08(rc *RunCtx) {
 	rc.R.Sample = map[string]any{"cause": cause, "load": load, "buffer_capacity": capacity, "policy": pol, "buffer_full_at_fault": saturatedOK,
 		"returned": returned, "error": fmt.Sprint(ret.err), "events_written": len(disk.Writes), "simulated_ms_to_return": (rc.SimNow() - t0).Milliseconds()}
 	rc.Sim.Count("c08.cause." + cause)
+	if strings.HasPrefix(cause, "write-error") && (disk.FailAt == 0 || disk.Calls < disk.FailAt) {
+		// the write that was to fail never happened (e.g. the events were not correlated):
+		// the failure cause did not occur, so there is nothing to judge in this run
+		rc.Sim.Count("c08.fault_not_fired")
+		rc.R.NonTrivial = false
+		return
+	}
 	if !returned {
 		rc.Fail("C08", "daemon-keeps-running", "cause %s under load %s (buffer capacity %d, full=%v): RunNamedPipe did not return within %s after the fault; still alive: %v",
 			cause, load, capacity, saturatedOK, whyNot, rc.Sim.Live())
